@@ -135,8 +135,8 @@ Lemma s_suite_list_off b o l o' : wfbytes b -> 0 <= o -> s_suite_list b o = Some
 Proof.
   intros Hwf Ho E. unfold s_suite_list in E. pose proof (le16_nonneg b o Hwf).
   destruct (zlen b <? o + 2); [discriminate|].
-  destruct (zlen b <? o + 2 + 4 * Z.min (le16 b o) 6); [discriminate|].
-  assert (o' = o + 2 + 4 * Z.min (le16 b o) 6) by congruence. lia.
+  destruct (zlen b <? o + 2 + 4 * le16 b o); [discriminate|].
+  assert (o' = o + 2 + 4 * le16 b o) by congruence. lia.
 Qed.
 
 (* ---------- reads through an agreeing oracle ---------- *)
@@ -201,12 +201,13 @@ Section Dec.
       rewrite rd_le16_exact by lia. cbn [bind].
       pose proof (le16_nonneg b o (wfbytes_slice _ _ _ Hwf)) as Hc.
       change max_suites with 6. change suite_len with 4.
-      assert (Hm : (if 6 <? le16 b o then 6 else le16 b o) = Z.min (le16 b o) 6)
-        by (destruct (6 <? le16 b o) eqn:?; lia).
-      rewrite Hm. set (c := Z.min (le16 b o) 6) in *.
-      destruct (base + len <? base + o + 2 + c * 4) eqn:C1.
-      + destruct (len <? o + 2 + 4 * c) eqn:C1'; [reflexivity|lia].
-      + destruct (len <? o + 2 + 4 * c) eqn:C1'; [lia|].
+      set (d := le16 b o) in *.
+      destruct (base + len - (base + o + 2) <? d * 4) eqn:C1.
+      + destruct (len <? o + 2 + 4 * d) eqn:C1'; [reflexivity|lia].
+      + destruct (len <? o + 2 + 4 * d) eqn:C1'; [lia|].
+        assert (Hm : (if 6 <? d then 6 else d) = Z.min d 6)
+          by (destruct (6 <? d) eqn:?; lia).
+        rewrite Hm.
         replace (base + o + 2) with (base + (o + 2)) by lia.
         rewrite rd_suites_exact by lia. cbn [bind].
         do 3 f_equal. lia.
